@@ -14,11 +14,12 @@ import (
 const wait = 4 * time.Second
 
 type scen struct {
-	udp      bool // pipeline over datagram framing
-	pipeline bool
-	maxCq    int
-	plans    []poolx.ConnPlan
-	run      func(s *poolx.Session, w *poolx.World) (closed bool, queries []int)
+	shortTimeout bool // reuse transport with a 150 ms per-query timeout
+	udp          bool // pipeline over datagram framing
+	pipeline     bool
+	maxCq        int
+	plans        []poolx.ConnPlan
+	run          func(s *poolx.Session, w *poolx.World) (closed bool, queries []int)
 	// must: queries (by index) for which every fresh connection works, nobody cancels and the transport stays
 	// open; extra = connections that die while such a query is under way (added to the stale count)
 	must  func(q int) bool
@@ -58,7 +59,11 @@ func runScen(w *hx.Writer, id, desc string, sc scen) {
 	} else if sc.pipeline {
 		t = poolx.NewPipeline(world, sc.maxCq, 16)
 	} else {
-		t = poolx.NewReuse(world)
+		rt := poolx.NewReuse(world)
+		if sc.shortTimeout {
+			rt.VerifSetWaitRespTimeout(150 * time.Millisecond)
+		}
+		t = rt
 	}
 	s := poolx.NewSession(sc.pipeline, world, t)
 	closed, qs := sc.run(s, world)
@@ -99,6 +104,29 @@ func inflight(k int) func(s *poolx.Session, w *poolx.World) (bool, []int) {
 		w.Conns[0].Kill()
 		for i := 0; i < k; i++ {
 			s.Wait(i, wait)
+		}
+		return false, qs
+	}
+}
+
+// pause: m concurrent queries leave m idle connections; nothing happens for longer than the per-query timeout;
+// then extra queries one by one.
+func pause(m, extra int) func(s *poolx.Session, w *poolx.World) (bool, []int) {
+	return func(s *poolx.Session, w *poolx.World) (bool, []int) {
+		var qs []int
+		for i := 0; i < m; i++ {
+			s.Start(i)
+			s.WaitWritten(i, 0, wait)
+			qs = append(qs, i)
+		}
+		w.Release()
+		for i := 0; i < m; i++ {
+			s.Wait(i, wait)
+		}
+		time.Sleep(400 * time.Millisecond)
+		for i := m; i < m+extra; i++ {
+			s.Run(i, wait)
+			qs = append(qs, i)
 		}
 		return false, qs
 	}
@@ -170,6 +198,16 @@ func main() {
 			do(fmt.Sprintf("cat:%s:stale-closelate-%d", tn, m), "pool of m connections closed by the server after it reads the next query, then 2 more queries",
 				scen{pipeline: pl, maxCq: 1, plans: plans, run: stale(m, 2, false),
 					must: func(q int) bool { return q < m }}) // the probes may legitimately use up their budget on dying connections
+		}
+		if !pl {
+			// healthy idle connections after a pause longer than the per-query timeout: the query deadline of the
+			// previous exchange must not make the next write fail (the deadline is set before the write)
+			for _, m := range []int{4, 6} {
+				plans := repeatPlan(poolx.ConnPlan{Dial: "ok", Answer: 1000, After: "healthy", HoldAll: true}, m)
+				do(fmt.Sprintf("cat:reuse:idle-pause-%d", m), "m healthy idle connections, a pause longer than the per-query timeout, then 2 more queries",
+					scen{pipeline: false, maxCq: 1, plans: plans, shortTimeout: true, run: pause(m, 2),
+						must: func(int) bool { return true }})
+			}
 		}
 		if pl {
 			// datagram framing: a connection whose next send fails (its read side stays silent) must be given up,
